@@ -65,8 +65,11 @@ Run(addrs) == addrs \subseteq Hosts /\ Expire /\ UNCHANGED <<K, FT, now, win, re
 \* the wrapped hostlist changes
 SetList(S) == S \subseteq Hosts /\ list' = S /\ UNCHANGED <<K, FT, now, win, mark, rec>>
 
-\* Passive.Resolve(): the healthy hosts of the list, or the whole list if none is healthy
+\* Passive.Resolve(): the healthy hosts of the list; if none is healthy, some non-empty part of the list
+\* (the code returns the whole list -- ResolveRes; the statement only demands "not empty" -- ResolveReplies)
 ResolveRes == IF RunRes(list) = {} THEN list ELSE RunRes(list)
+ResolveReplies == IF RunRes(list) # {} THEN {RunRes(list)}
+                  ELSE IF list = {} THEN {{}} ELSE (SUBSET list) \ {{}}
 Resolve == Expire /\ UNCHANGED <<K, FT, now, win, rec, list>>
 
 Next == \/ \E h \in Hosts : Failed(h)
@@ -91,9 +94,10 @@ WindowRule == \A h \in Hosts : Filtered(h) <=> StmtFiltered(h)
 \* replies of Run: exactly the hosts of the argument that the statement does not filter
 RunRule == \A S \in SUBSET Hosts : RunRes(S) = {h \in S : ~StmtFiltered(h)}
 \* a passively checked list never resolves to nothing while it has hosts, and only to its own hosts
-ResolveRule == /\ ResolveRes \subseteq list
-               /\ list # {} => ResolveRes # {}
-               /\ (\E h \in list : ~StmtFiltered(h)) => ResolveRes = {h \in list : ~StmtFiltered(h)}
+ResolveRule == \A r \in ResolveReplies :
+                 /\ r \subseteq list
+                 /\ list # {} => r # {}
+                 /\ (\E h \in list : ~StmtFiltered(h)) => r = {h \in list : ~StmtFiltered(h)}
 \* the kept window is exactly the failures within FT of the latest failure
 WinIsRecent == \A h \in Hosts : rec[h] # <<>> =>
                  win[h] = SelectSeq(rec[h], LAMBDA t : rec[h][Len(rec[h])] - t <= FT)
